@@ -12,6 +12,22 @@ CLAIMED = {
  "C04": ("model_checking", "TLA+ transcription of do_make_move/do_unmake_move (spec/BoardImpl.tla): TLC checks on the bounded model MC_Impl that unmake inverts make in every component for every semilegal/null move, and validates recorded nested make/unmake walks of the real Board step by step against it (position, hash and all 16 sets restored)", "5 C04"),
  "C05": ("model_checking", "abstract-key Zobrist hash (XOR = symmetric difference) and occupancy sets in spec/BoardImpl.tla: TLC checks Derived = Scratch in every state of MC_Impl; every recorded state of the real Board is checked for hash = scratch hash, sets = sets rebuilt by the spec, key->hash functional/injective, plus single-feature hash pairs", "5 C05"),
 }
+T = "TLA+ specification + TLC; trace validation of recorded library executions against the spec"
+CLAIMED.update({
+ "C02": ("model_checking", "abstract move-chain machine (spec/Chain.tla) + reference rules: TLC validates recorded chain sessions in which every kind of move-like value is pushed; accepted iff it denotes a legal move (UCI: exact; SAN: sound against SanDescribe/SanResolve and complete on standard texts); after every call the position is Rules!IsValid, re-validates identically, the mover is not in check, and a refused push leaves the whole observation unchanged", "5 C02"),
+ "C08": ("model_checking", "Notation!FenWrite and an independent Notation!FenRead over code points: TLC checks every recorded as_fen text is the canonical record, that the independent reader and the library's reader give back the position, for valid boards, unvalidated raw boards and accepted non-canonical / mutated texts (parse-format-parse stable)", "5 C08"),
+ "C09": ("model_checking", "Notation!SanOf (FIDE Appendix C: letter, minimal disambiguation among LEGAL moves, capture, promotion, castling, + / #) and SanDescribe/SanResolve: TLC checks every recorded SAN text in both styles, distinctness, round trip, and for ~100-300 texts per position that parsing returns only the unique legal move agreeing with the text", "5 C09"),
+ "C10": ("model_checking", "Notation!UciOf/UciParse and Rules!PseudoLegal/Legal: per position all 20 481 UCI strings are tried through five entry points; TLC checks the accepted (triple, move) sets equal exactly the pseudo-legal resp. legal moves, kinds included, round trip, and that 0000 is never playable", "5 C10"),
+ "C11": ("model_checking", "Rules!Conditions / Normalise: TLC decides every recorded raw board: accepted iff no condition holds, the reported reason is one that holds, the result is exactly the normalised input, idempotent, derived state from scratch", "5 C11"),
+ "C12": ("model_checking", "trace validation of 12 parsing entry points over exhaustively enumerated short strings (incl. 2/3/4-byte characters), grammar-directed mutations and long/random text: no spec action produces a panic; accepted values format back to themselves; exact accept languages for square, colour, cell, rights, UCI", "5 C12"),
+ "C13": ("model_checking", "abstract move chain (spec/Chain.tla: start, moves, hist by Rules!ApplyMove, outcome): TLC validates random push/pop/outcome sessions step by step (position = replay of accepted moves, move list, refused push changes nothing, pop undoes the last push and clears the outcome, == decided by start/moves/outcome on rebuilt and perturbed chains)", "5 C13"),
+ "C14": ("model_checking", "Chain!RepCount over the abstract history + Rules!OutcomeAllowed (forced > mandatory > claimable, reason must apply) + OutcomePasses: TLC validates calc_outcome / set_auto_outcome of shuffle-biased sessions, and the count() values seen by a spy repetition table", "5 C14"),
+ "C15": ("model_checking", "Geometry!RookAttacks/BishopAttacks/KingSet/KnightSet/PawnAttackSet/Between/SameLine/SameDiag: TLC compares every table lookup - every subset of every relevant mask, with and without blockers outside the mask - with the geometric definition", "5 C15"),
+ "C17": ("model_checking", "abstract walker (cursor over Chain!hist) and Chain!UciListText/StyledText: TLC validates random walker step sequences (returned board in full projection), the UCI list round trip and all 18 styled variants", "5 C17"),
+ "C18": ("model_checking", "Rules!MirrorPos/MirrorMove and FlopPos/FlopMove: the mirrored position is built through the public API; TLC checks it is the spec's image, valid, and that legal moves, check and outcome correspond (winner swapped)", "5 C18"),
+ "C19": ("exploration", "PARTIAL: on the position stream, on hill-climbed maximal-mobility positions and on boundary texts, |Rules!PseudoLegal| = length of the safe sink = length of the 256-entry MoveList, in a build with debug/overflow/unsafe-precondition checks and in an optimised build; an abort is reported through a write-ahead file. The universal bound (no valid position has more than 256 semilegal moves) is NOT decided", "5 C19 and 7"),
+ "C20": ("model_checking", "spec/Types.tla (tables, sets of squares, Deposit, flips, shifts, named constants): TLC checks exhaustive conversions of every value of every finite type, accept languages of from_char/FromStr, bitboard algebra on all pairs/subsets of small universes + random sets, square arithmetic and every named constant", "5 C20"),
+})
 REASONS = {}
 m = {
  "version": 1,
@@ -40,9 +56,10 @@ for i in ids:
           "engine": "I2S+MC",
           "level_claimed": {"category": lvl, "text": text, "design_ref": "DESIGN.md section " + ref},
           "level_note": "trusted: TLC 1.8.0, the TLA+ reference layer (pinned by spec/SelfTest.tla to published perft counts), the harness projection; bounded: the explored positions/histories, not all",
-          "technique": "TLA+ specification + TLC; trace validation of recorded library executions against the spec",
+          "technique": T if i not in ("C04","C05","C01","C03","C06","C07","C16") else "TLA+ specification + TLC: bounded model checking of the refinement between the implementation-shaped and the reference layer, TLC-enumerated input families replayed into the code, trace validation of recorded executions",
         })
     else:
         m["not_applicable"].append({"property_id": i, "reason": REASONS.get(i, "check not built yet (work in progress; see DESIGN.md build order)")})
-json.dump(m, open('/verif/MANIFEST.json', 'w'), indent=1)
+# engines are patched below
+json.dump(m, open("/verif/MANIFEST.json", "w"), indent=1)
 print("claimed", len(m["checks"]), "not_applicable", len(m["not_applicable"]))
